@@ -110,6 +110,17 @@ pub fn child(args: &[String]) -> i32 {
     }
 }
 
+/// Tag byte of an array value in the STRN image (found by encoding one; a struct is the next tag).
+fn seed_array_tag() -> u8 {
+    let mut snap = RetainSnapshot::default();
+    snap.insert("v", Value::Array(ArrayValue { elements: vec![Value::Bool(true)], dimensions: vec![] }));
+    let p = std::env::temp_dir().join(format!("tpv-tag-{}.bin", std::process::id()));
+    FileRetainStore::new(&p).store(&snap).unwrap();
+    let b = std::fs::read(&p).unwrap();
+    let _ = std::fs::remove_file(&p);
+    b[6 + 4 + 4 + 1]
+}
+
 fn classify(path: &Path, old: Option<&RetainSnapshot>, new: &RetainSnapshot) -> (String, String) {
     match FileRetainStore::new(path).load() {
         Ok(s) => {
@@ -245,15 +256,65 @@ pub fn run(args: &[String]) -> i32 {
         o.line(&json!({"a": "Codec", "id": id, "roundtrip": same, "err": err, "values": s.values().len()}));
     }
     let mut rng = StdRng::seed_from_u64(seed ^ 0xbad);
-    let seed_img = {
+    let image = |id: u64| {
         let p = cdir.join("seed.bin");
-        FileRetainStore::new(&p).store(&snapshot(seed ^ 0xc0dec, 3)).unwrap();
+        FileRetainStore::new(&p).store(&snapshot(seed ^ 0xc0dec, id)).unwrap();
         std::fs::read(&p).unwrap()
     };
-    let mut descs = Vec::new();
+    let seed_img = image(3);
+    let mut muts: Vec<(String, Vec<u8>)> = Vec::new();
+    // (a) systematic: every byte offset of a few images overwritten with a hostile 32-bit value
+    //     (every count / length field of the format is a u32 somewhere in the image), and every
+    //     truncation of one image
+    let sweep_ids: &[u64] = if every_byte { &[1, 2, 3, 4, 6, 7, 8, 9, 11, 12] } else { &[1, 3, 6, 7] };
+    for &id in sweep_ids {
+        let img = image(id);
+        for off in 6..img.len() {
+            for v in [0x7FFF_FFFFu32, 0xFFFF_FFFF, 0x00FF_FFFF] {
+                let mut b = img.clone();
+                for (k, x) in v.to_le_bytes().iter().enumerate() {
+                    if off + k < b.len() {
+                        b[off + k] = *x;
+                    }
+                }
+                muts.push((format!("img{id}:u32:{v:#x}@{off}"), b));
+            }
+        }
+    }
+    for off in 0..seed_img.len() {
+        muts.push((format!("truncate@{off}"), seed_img[..off].to_vec()));
+    }
+    // (b) nesting: an array of one array of one array ... / a struct with one struct field ...
+    //     (9 resp. 13 bytes per level), closed by a BOOL or cut off at the innermost level
+    let atag = seed_array_tag();
+    for depth in [100usize, 10_000, 200_000, 1_000_000] {
+        for (kind, closed) in [("array", true), ("array", false), ("struct", true), ("struct", false)] {
+            let mut b = seed_img[..6].to_vec();
+            b.extend(1u32.to_le_bytes());
+            b.extend(1u32.to_le_bytes());
+            b.push(b'v');
+            for _ in 0..depth {
+                if kind == "array" {
+                    b.push(atag);
+                    b.extend(1u32.to_le_bytes());
+                    b.extend(0u32.to_le_bytes());
+                } else {
+                    b.push(atag + 1);
+                    b.extend(0u32.to_le_bytes());
+                    b.extend(1u32.to_le_bytes());
+                    b.extend(0u32.to_le_bytes());
+                }
+            }
+            if closed {
+                b.extend([1u8, 1u8]);
+            }
+            muts.push((format!("nest:{kind}:{depth}:{}", if closed { "closed" } else { "open" }), b));
+        }
+    }
+    // (c) random single mutations
     for i in 0..corrupt {
         let mut b = seed_img.clone();
-        let off = if i < 40 { i.min(b.len() - 1) } else { rng.gen_range(0..b.len()) };
+        let off = rng.gen_range(0..b.len());
         let desc = match i % 5 {
             0 => {
                 b.truncate(off);
@@ -283,6 +344,11 @@ pub fn run(args: &[String]) -> i32 {
                 format!("append@{}", b.len())
             }
         };
+        muts.push((desc, b));
+    }
+    let corrupt = muts.len();
+    let mut descs = Vec::new();
+    for (i, (desc, b)) in muts.into_iter().enumerate() {
         std::fs::write(cdir.join(format!("m{i}.bin")), &b).unwrap();
         descs.push(desc);
     }
